@@ -199,6 +199,11 @@ def _user_delattr(self, name):
     object.__delattr__(self, name)
 
 
+import weakref
+
+_CUT_OF = weakref.WeakKeyDictionary()      # real class -> the object that built it
+
+
 class PlainCUT:
     """An undecorated class, shaped like initgen.ClassUnderTest as far as initgen looks."""
 
@@ -222,6 +227,13 @@ class PlainCUT:
             body["__slots__"] = ()
         bases = tuple(c.cls for c in bases_cuts) or (object,)
         self.cls = type("P" + desc["uid"], bases, body)
+        # the initializer instances are built with is the one of the nearest attrs class of the MRO
+        for k in self.cls.__mro__[1:]:
+            c = _CUT_OF.get(k)
+            if c is not None and not isinstance(c, PlainCUT):
+                self.spec["slots"] = bool(c.spec["slots"])
+                self.spec["cache_hash"] = bool(c.spec["cache_hash"])
+                break
 
     @property
     def frozen(self):
@@ -319,18 +331,21 @@ def user_os_term(tag, uid):
     return "(COsPipe %s)" % lst(hs)
 
 
-def rejected_spec_term(c):
-    """The class was rejected: no real Attribute objects for the own fields; encode them from the description
-    (inherited ones from the real primary base)."""
+def rejected_spec_term(c, raw_bases):
+    """The class was rejected: no real Attribute objects for the own fields; encode them from the description.
+    Inherited ones: every attrs class of the would-be MRO contributes its own (non-inherited) fields, nearest
+    first (only which hooks / validators / converters exist matters for a rejection, not the order)."""
     s = c.spec
-    base = s["base"]
     terms = []
-    if base is not None and getattr(base.cls, "__attrs_attrs__", None) is not None:
-        fh = g.field_hook_models(base)
-        own = {f["name"] for f in s["fields"]}
-        for a in attr.fields(base.cls):
-            if a.name not in own:
-                terms.append(g.enc_attribute(a.evolve(inherited=True), fh))
+    own = {f["name"] for f in s["fields"]}
+    taken = set(own)
+    probe = type("probe", raw_bases, {})
+    for k in probe.__mro__[1:-1]:
+        for a in k.__dict__.get("__attrs_attrs__", ()):
+            if a.inherited or a.name in taken:
+                continue
+            taken.add(a.name)
+            terms.append(g.enc_attribute(a.evolve(inherited=True), {}))
     for f in s["fields"]:
         os_ = f["on_setattr"]
         ok = "OsNone" if os_ is None else ("OsNoOp" if os_ == "NO_OP" else "(OsPipe %s)" % lst(g.hooks_model(os_, f["uid"])))
@@ -384,6 +399,8 @@ class Hier:
                     self.error = "%s: %s" % cut.def_error
                     break
             self.cuts.append(cut)
+            if cut.cls is not None:
+                _CUT_OF[cut.cls] = cut
             if cut.cls is None:
                 self.ids.append(None)
             else:
@@ -402,9 +419,9 @@ class Hier:
                 mro = [by_cls[c] for c in probe.__mro__[1:] if c in by_cls]
                 bases = [by_cls[c] for c in raw_bases if c in by_cls]
                 root_exc = any(issubclass(c, BaseException) and c not in by_cls for c in raw_bases)
-            self.terms.append(self._encode(d, cut, bases, mro, root_exc))
+            self.terms.append(self._encode(d, cut, bases, mro, root_exc, raw_bases if cut.cls is None else None))
 
-    def _encode(self, d, cut, bases, mro, root_exc):
+    def _encode(self, d, cut, bases, mro, root_exc, raw_bases):
         ids = lambda l: lst("%d" % i for i in l)
         if d["kind"] == "plain":
             a = "None"
@@ -412,7 +429,7 @@ class Hier:
         else:
             s = cut.spec
             api = "ApiFrozen" if d.get("alias") else ("ApiAttrS" if s["api"] == "attrs" else "ApiDefine")
-            spec_t = g.enc_spec(cut) if cut.cls is not None else rejected_spec_term(cut)
+            spec_t = g.enc_spec(cut) if cut.cls is not None else rejected_spec_term(cut, raw_bases)
             a = "(Some (Build_adef %s %s %s %s %s))" % (
                 api, b(bool(s["frozen"]) and not d.get("alias")), b(s["api"] == "define"),
                 user_os_term(s["on_setattr"], s["uid"]), spec_t)
@@ -656,6 +673,9 @@ def draw_attrs_desc(rng, uidc, h_cuts, base_idx, opts):
     if opts.get("extra_bases"):
         spec["exc"] = False
         spec["pre"] = None
+    if opts.get("no_prepost"):
+        spec["pre"] = None
+        spec["post"] = False
     frozen_eff = spec["frozen"] or (base is not None and base.frozen) or bool(opts.get("assume_frozen"))
     hooks = opts.get("hooks")          # None | 'cls' | 'field' | 'noinit' (F7 shape) | 'mutable-cls'
     spec["base"] = base
@@ -776,17 +796,17 @@ def plans(rng):
         for leaf in ("P", "attrs", "define"):
             for order in (0, 1):
                 for mix in ("plain", "hooked", "mutable", "user"):
-                    p = [("A", None, dict(r, slots=False, exc=False))]
+                    p = [("A", None, dict(r, slots=False, exc=False, no_prepost=True))]
                     if mix == "plain":
                         p.append(("P", None, {}))
                     elif mix == "user":
                         p.append(("P", None, {"user_sa": True}))
                     elif mix == "hooked":
                         p.append(("A", None, {"api": "attrs", "frozen": False, "hooks": "mutable-cls", "slots": False,
-                                              "exc": False}))
+                                              "exc": False, "no_prepost": True}))
                     else:
                         p.append(("A", None, {"api": "attrs", "frozen": False, "no_hooks": True, "slots": False,
-                                              "exc": False}))
+                                              "exc": False, "no_prepost": True}))
                     first, second = (0, 1) if order == 0 else (1, 0)
                     if leaf == "P":
                         p.append(("P", first, {"extra_bases": [second]}))
@@ -910,6 +930,15 @@ def cases_of_hierarchy(h, rng, tier, deep):
             # hooks; its initializer then runs those hooks.  Not a frozen class: class-level kinds only.
             _dist["k6-shape-not-instantiated"] += 1
             continue
+        if h.descs[ti]["kind"] == "plain":
+            # an undecorated class is built by the __init__ of the nearest class that has one; under multiple
+            # inheritance that can be a MUTABLE attrs class (plain `self.x = v` stores) while __setattr__
+            # resolves to a frozen class further right: construction then raises (docs/C05.md, O2).  Static
+            # criterion, independent of what construction does.
+            prov = next((k for k in cut.cls.__mro__[1:] if "__init__" in k.__dict__ and k in _CUT_OF), None)
+            if prov is not None and (classify(prov)[0] == "SaFrozen") != (sa == "SaFrozen"):
+                _dist["init-provider-mismatch-not-instantiated"] += 1
+                continue
         shape = rng.choice(["mandatory", "all-kw"])
         base = {"hier": h.descs[:ti + 1], "target": ti, "call": shape}
         try:
